@@ -16,17 +16,26 @@ const (
 	KBool Kind = iota
 	KBV
 	KFP // float64
+	KArr
 )
 
 type Sort struct {
-	K Kind
-	W int
+	K  Kind
+	W  int  // bit width (BV), element width (arrays)
+	IW int  // arrays: index width
+	EK Kind // arrays: element kind
 }
 
-var Bool = Sort{KBool, 0}
-var FP64 = Sort{KFP, 64}
+var Bool = Sort{K: KBool}
+var FP64 = Sort{K: KFP, W: 64}
 
-func BV(w int) Sort { return Sort{KBV, w} }
+func BV(w int) Sort { return Sort{K: KBV, W: w} }
+
+// Arr is the sort of arrays from BV(iw) to elem.
+func Arr(iw int, elem Sort) Sort { return Sort{K: KArr, W: elem.W, IW: iw, EK: elem.K} }
+
+// Elem returns the element sort of an array sort.
+func (s Sort) Elem() Sort { return Sort{K: s.EK, W: s.W} }
 
 func (s Sort) String() string {
 	switch s.K {
@@ -34,6 +43,8 @@ func (s Sort) String() string {
 		return "Bool"
 	case KBV:
 		return fmt.Sprintf("(_ BitVec %d)", s.W)
+	case KArr:
+		return fmt.Sprintf("(Array (_ BitVec %d) %s)", s.IW, s.Elem())
 	default:
 		return "(_ FloatingPoint 11 53)"
 	}
@@ -87,6 +98,9 @@ const (
 	OFToSBV   // fp -> signed bv, RTZ, amd64 cvttsd2si semantics for out-of-range handled by builder
 	OFFromBits // bv64 -> fp reinterpret
 	OFToSBVRaw // raw fp.to_sbv RTZ (unspecified out of range)
+	OArrConst  // constant array, A[0] = element
+	OSelect
+	OStore
 )
 
 type Term struct {
@@ -110,6 +124,7 @@ type key struct {
 var table = map[key]*Term{}
 var nextID = 1
 var NumTerms = 0
+var NumByOp = map[Op]int{}
 
 func mk(op Op, s Sort, v uint64, name string, args ...*Term) *Term {
 	k := key{op: op, s: s, v: v, name: name, n: len(args)}
@@ -131,6 +146,7 @@ func mk(op Op, s Sort, v uint64, name string, args ...*Term) *Term {
 	t := &Term{ID: nextID, Op: op, S: s, A: append([]*Term(nil), args...), V: v, Name: name}
 	nextID++
 	NumTerms++
+	NumByOp[op]++
 	table[k] = t
 	return t
 }
@@ -760,6 +776,114 @@ func FToInt(a *Term, w int) *Term {
 	return Extract(r, w-1, 0)
 }
 
+// ---- arrays ----
+
+func ArrConst(iw int, elem *Term) *Term {
+	return mk(OArrConst, Arr(iw, elem.S), 0, "", elem)
+}
+
+// Select reads an array. Store chains, constant arrays and ite-of-arrays are expanded eagerly
+// (read-over-write), so that queries stay in pure bit-vector logic; the array terms are only a compact
+// representation of the writes.
+var selectMemo = map[[2]int]*Term{}
+
+func Select(a, i *Term) *Term {
+	k := [2]int{a.ID, i.ID}
+	if r, ok := selectMemo[k]; ok {
+		return r
+	}
+	// iterative descent collecting the undecided layers
+	type layer struct{ cond, val *Term }
+	var layers []layer
+	cur := a
+	var base *Term
+	for base == nil {
+		switch cur.Op {
+		case OArrConst:
+			base = cur.A[0]
+		case OStore:
+			idx := cur.A[1]
+			if idx == i {
+				base = cur.A[2]
+			} else if idx.IsConst() && i.IsConst() {
+				cur = cur.A[0]
+			} else {
+				layers = append(layers, layer{Eq(idx, i), cur.A[2]})
+				cur = cur.A[0]
+			}
+		case OIte:
+			base = Ite(cur.A[0], Select(cur.A[1], i), Select(cur.A[2], i))
+		default:
+			base = mk(OSelect, cur.S.Elem(), 0, "", cur, i)
+		}
+	}
+	r := base
+	for n := len(layers) - 1; n >= 0; n-- {
+		r = Ite(layers[n].cond, layers[n].val, r)
+	}
+	selectMemo[k] = r
+	return r
+}
+
+func Store(a, i, v *Term) *Term {
+	if a.Op == OArrConst && a.A[0] == v {
+		return a
+	}
+	if a.Op == OStore && a.A[1] == i {
+		return Store(a.A[0], i, v)
+	}
+	// storing the value already there
+	if v.Op == OSelect && v.A[0] == a && v.A[1] == i {
+		return a
+	}
+	return mk(OStore, a.S, 0, "", a, i, v)
+}
+
+// IteArr merges two arrays without an ite over arrays when one extends the other by stores.
+func IteArr(c, a, b *Term) *Term {
+	if a == b {
+		return a
+	}
+	if c.IsTrue() {
+		return a
+	}
+	if c.IsFalse() {
+		return b
+	}
+	ext := func(long, short *Term) ([]*Term, bool) {
+		var chain []*Term
+		x := long
+		for d := 0; d < 4096; d++ {
+			if x == short {
+				return chain, true
+			}
+			if x.Op != OStore {
+				return nil, false
+			}
+			chain = append(chain, x)
+			x = x.A[0]
+		}
+		return nil, false
+	}
+	if chain, ok := ext(a, b); ok {
+		cur := b
+		for k := len(chain) - 1; k >= 0; k-- {
+			st := chain[k]
+			cur = Store(cur, st.A[1], Ite(c, st.A[2], Select(cur, st.A[1])))
+		}
+		return cur
+	}
+	if chain, ok := ext(b, a); ok {
+		cur := a
+		for k := len(chain) - 1; k >= 0; k-- {
+			st := chain[k]
+			cur = Store(cur, st.A[1], Ite(c, Select(cur, st.A[1]), st.A[2]))
+		}
+		return cur
+	}
+	return Ite(c, a, b)
+}
+
 // ---- helpers ----
 
 func (t *Term) String() string {
@@ -788,6 +912,7 @@ var opNames = map[Op]string{
 	OFLt: "fp.lt", OFLe: "fp.leq", OFEq: "fp.eq", OFIsNaN: "fp.isNaN",
 	OFFromSBV: "(_ to_fp 11 53) RNE", OFFromUBV: "(_ to_fp_unsigned 11 53) RNE", OFFromBits: "(_ to_fp 11 53)",
 	OFToSBVRaw: "(_ fp.to_sbv 64) RTZ",
+	OSelect: "select", OStore: "store",
 }
 
 func printTerm(sb *strings.Builder, t *Term, named map[int]bool) {
@@ -811,6 +936,10 @@ func printTerm(sb *strings.Builder, t *Term, named map[int]bool) {
 		}
 	case OVar:
 		sb.WriteString(quoteSym(t.Name))
+	case OArrConst:
+		fmt.Fprintf(sb, "((as const %s) ", t.S)
+		printTerm(sb, t.A[0], named)
+		sb.WriteString(")")
 	case OExtract:
 		fmt.Fprintf(sb, "((_ extract %d %d) ", t.V>>8, t.V&0xff)
 		printTerm(sb, t.A[0], named)
